@@ -229,6 +229,17 @@ class Resolver:
                 if a is None or b is None:
                     return None
                 return a.add(b, 1 if d[1]["op"].startswith("Add") else -1)
+        # `let Some(p) = a.checked_sub(b) else { .. }` / `if let Some(p) = a.checked_add(b)`: on the Some path p is a - b / a + b
+        if not proj and not (1 <= l <= self.b["argc"]):
+            d = self.single_def(l)
+            if d and d[0] == "assign" and d[1].get("k") == "use" and d[1]["op"].get("k") in ("copy", "move") and (d[1]["op"]["pl"].get("p") or []) == ["as Some", ".0"]:
+                dd = self.single_def(d[1]["op"]["pl"]["l"])
+                if dd and dd[0] == "call" and dd[1]["f"].get("k") == "fn":
+                    m_ = re.search(r"num::<impl (usize|u8|u16|u32|u64|u128)>::checked_(sub|add)$", dd[1]["f"]["fn"].get("rpath", dd[1]["f"]["fn"]["path"]))
+                    if m_ and len(dd[1]["a"]) == 2:
+                        a, b = self.lin(dd[1]["a"][0], depth + 1), self.lin(dd[1]["a"][1], depth + 1)
+                        if a is not None and b is not None:
+                            return a.add(b, 1 if m_.group(2) == "add" else -1)
         if not proj and not (1 <= l <= self.b["argc"]) and not self.is_named(l):
             d = self.single_def(l)
             if d:
